@@ -178,7 +178,8 @@ func runC19(c *fw.Case) {
 			return
 		}
 	}
-	if _, err := n.BeginBlock(t); err != nil {
+	bres, err := n.BeginBlock(t)
+	if err != nil {
 		c19Panic(c, err, t)
 		return
 	}
@@ -187,6 +188,18 @@ func runC19(c *fw.Case) {
 	if err != nil {
 		c.Violate("C19/inflation-query-error", "Inflation query failed at %s: %v", fmtTime(t), err)
 		return
+	}
+	// the minter reports its inflation in two places: the query and the Mint event of the
+	// block. Both describe the state after this block's mint (the event is only compared
+	// when nothing was burned in the block, a burn changes the supply after the event)
+	if led, lerr := chain.Ledger(bres.Events); lerr == nil && len(led.Burned) == 0 {
+		if evs := typedEvents(bres.Events, "cfeminter.Mint"); len(evs) == 1 {
+			c.Count("mint_event_inflation_compared", 1)
+			if got := chain.Unq(evs[0].Attrs["inflation"]); got != resp.Inflation.String() {
+				c.ViolateD("C19/event-inflation-vs-query", map[string]string{"config": mc.Describe(), "t": fmtTime(t), "event": got, "query": resp.Inflation.String()},
+					"the Mint event of the block at %s reports inflation %s, the Inflation query in the same block %s", fmtTime(t), got, resp.Inflation)
+			}
+		}
 	}
 	I := decRat(resp.Inflation)
 	S := n.App.BankKeeper.GetSupply(ctx, mintDenom).Amount.BigInt()
